@@ -219,19 +219,18 @@ def run(ctx):
             hg = CFG(fn)
             hrd = ReachingDefs(hg)
             node = node_of_expr(hg, n._parent)
-            commits_ = call_nodes(hg, 'self._data_session.commit')
-            okp = meth in m.handlers and bool(commits_) and all(hg.dominates(cn, node) for cn, cc in commits_)
+            commits_ = m.commit_nodes(hg)
+            okp = meth in m.handlers and bool(commits_) and all(hg.dominates(cn, node) for cn in commits_)
             okv = False
             if isinstance(val, ast.Call) and call_name(val) == 'str' and len(val.args) == 1 and isinstance(val.args[0], ast.Attribute) and val.args[0].attr == 'unique_identifier' \
                     and isinstance(val.args[0].value, ast.Name):
                 ov = val.args[0].value.id
                 vals = hrd.values(node, ov)
                 fresh = bool(vals) and all(isinstance(v, ast.Call) and ((call_name(v) or '').startswith('objects.') or (isinstance(v.func, ast.Attribute) and v.func.attr == 'convert')) for v in vals)
-                added = [c for nn, c in call_nodes(hg, 'self._data_session.add') if c.args and isinstance(c.args[0], ast.Name) and c.args[0].id == ov]
-                okv = fresh and bool(added)
+                okv = fresh and bool(m.add_nodes(hg, ov))
             ctx.check(okp and okv, 'C08.R5', 'KmipEngine.%s|placeholder-store' % meth, site, 'placeholder = str(<new object>.unique_identifier) after the commit',
                       'the ID placeholder is stored before the commit, outside a creating handler, or not from the newly added object')
-    ctx.count('placeholder_stores', n_st, 5)
+    ctx.count('placeholder_stores', n_st, 1)
     adders = sorted(set(e['ctx'][0] for e in ai.events if e['kind'] == 'add'))
     ctx.count('creating_handlers', len(adders), 4)
     for h in adders:
@@ -288,7 +287,7 @@ def run(ctx):
                       'identifier = payload.unique_identifier when present, else the ID placeholder',
                       'the identifier passed to the access check deviates from the common fallback shape (payload identifier when present, placeholder otherwise): %s' % sorted(kinds))
         ctx.check(found, 'C08.R5', 'KmipEngine.%s|placeholder-read-unused' % h, site, 'placeholder feeds the access-controlled load', 'the placeholder is read but does not feed the load through the common fallback')
-    ctx.count('fallback_handlers', n_fb, 14)
+    ctx.count('fallback_handlers', n_fb, 8)
 
     # ---------------- R6
     pr = m.method('process_request')
